@@ -21,10 +21,14 @@ RErr(k)  == [t |-> "err",  v |-> k]
 PR(post, ret) == [post |-> post, ret |-> ret]
 
 ---------------------------------------------------------------------------
-(* PushStack<T>; s is top first; elem = "int" | "item" *)
-ElemStr(elem, x) == IF elem = "int" THEN ToString(x) ELSE PrintItem(x)
-ElemShallowEq(elem, a, b) == IF elem = "int" THEN a = b ELSE a.k = b.k
-ElemStrEq(elem, a, b) == IF elem = "int" THEN a = b ELSE PrintItem(a) = PrintItem(b)
+(* PushStack<T>; s is top first; elem = "int" | "item" | "float" (floats as bit patterns) *)
+\* a float stack prints its elements with one decimal; `last_eq` compares with == (NaN equals nothing, the zeros are equal),
+\* `equal_at` compares the shortest decimal forms, which differ exactly when the values do (NaN reads "NaN", -0 reads "-0")
+ElemStr(elem, x) == IF elem = "int" THEN ToString(x) ELSE IF elem = "float" THEN FixedFloat(x, 1) ELSE PrintItem(x)
+ElemShallowEq(elem, a, b) == IF elem = "int" THEN a = b ELSE IF elem = "float" THEN FEq(a, b) ELSE a.k = b.k
+ElemStrEq(elem, a, b) == IF elem = "int" THEN a = b
+                         ELSE IF elem = "float" THEN (FIsNaN(a) /\ FIsNaN(b)) \/ (~FIsNaN(a) /\ ~FIsNaN(b) /\ a = b)
+                         ELSE PrintItem(a) = PrintItem(b)
 
 StackOp(elem, m, a, s) ==
   LET n == Len(s) IN
@@ -51,7 +55,7 @@ StackOp(elem, m, a, s) ==
     [] m = "from_vec" -> PR(Rev(a[1]), RUnit)
     [] m = "clone"    -> PR(s, RVal(s))
     \* an element of any nesting depth is printed in full, equals itself and differs from one with another leaf
-    [] m = "deep_probe" -> IF elem = "int" THEN PR(s, RNone)
+    [] m = "deep_probe" -> IF elem # "item" THEN PR(s, RNone)
                            ELSE LET d == DeepItem(a[1], a[2]) IN
                                 PR(s, RVal([text |-> JoinStr([i \in 1..(n + 1) |-> ElemStr(elem, (<<d>> \o s)[i])], " "),
                                             copy |-> PrintItem(d), same |-> TRUE, other |-> FALSE, back |-> TRUE]))
